@@ -36,8 +36,9 @@ static unsigned long long vf_get(char const * name, long idx) {
   if (idx > 0) return vf_get(name, 0);      /* array element the counterexample trace did not mention (sliced away): take element 0's value - any value allowed by the assumptions will do */
   return 0;
 }
-static double vf_getd(char const * n, long i) {unsigned long long b = vf_get(n, i); double d; memcpy(&d, &b, 8); return d;}
-static float vf_getf(char const * n, long i) {unsigned b = (unsigned)vf_get(n, i); float d; memcpy(&d, &b, 4); return d;}
+static void vf_bytes(void * d, void const * s, size_t n) { size_t k; for (k = 0; k < n; ++k) ((unsigned char *)d)[k] = ((unsigned char const *)s)[k]; }      /* not memcpy: some harnesses displace it */
+static double vf_getd(char const * n, long i) {unsigned long long b = vf_get(n, i); double d; vf_bytes(&d, &b, 8); return d;}
+static float vf_getf(char const * n, long i) {unsigned b = (unsigned)vf_get(n, i); float d; vf_bytes(&d, &b, 4); return d;}
 #define VF_ASSUME(c) do { if (!(c)) { fprintf(stderr, "VF: assumption not met: %s\n", #c); exit(77);} } while (0)
 #define VF_ASSERT(c, msg) do { if (!(c)) { fprintf(stderr, "VF-ASSERT-FAILED: %s\n", msg); exit(1);} } while (0)
 #define IN_INT(n)   int n = (int)vf_get(#n, -1)
@@ -50,9 +51,9 @@ static float vf_getf(char const * n, long i) {unsigned b = (unsigned)vf_get(n, i
 #define IN_DBL(n)   double n = vf_getd(#n, -1)
 #define IN_FLT(n)   float n = vf_getf(#n, -1)
 #define IN_ARR(T, n, N)  T n[N]; do { long vf_i; for (vf_i = 0; vf_i < (N); ++vf_i) { \
-    unsigned long long vf_b = vf_get(#n, vf_i); memcpy(&n[vf_i], &vf_b, sizeof(T)); } } while (0)
+    unsigned long long vf_b = vf_get(#n, vf_i); vf_bytes(&n[vf_i], &vf_b, sizeof(T)); } } while (0)
 #define IN_GARR(n)  do { long vf_i; for (vf_i = 0; vf_i < (long)(sizeof(n)/sizeof(n[0])); ++vf_i) { \
-    unsigned long long vf_b = vf_get(#n, vf_i); memcpy(&n[vf_i], &vf_b, sizeof(n[0])); } } while (0)
+    unsigned long long vf_b = vf_get(#n, vf_i); vf_bytes(&n[vf_i], &vf_b, sizeof(n[0])); } } while (0)
 #define SET_INT(n)   n = (int)vf_get(#n, -1)
 #define SET_UINT(n)  n = (unsigned)vf_get(#n, -1)
 #define SET_LONG(n)  n = (long)vf_get(#n, -1)
